@@ -143,7 +143,11 @@ type QCfg struct {
 	SubFrom   int // tables per FROM list inside subqueries
 	ForSQLite bool
 	// domain exclusions for known findings (DESIGN §6); each is lifted by the pinned-witness replay only
-	NoHavingOnlyAgg bool // F18: aggregates in HAVING are taken from the select list
+	NoHavingOnlyAgg   bool // (unused unless a stream needs it) aggregates in HAVING are taken from the select list
+	NoHavingExprKey   bool // F18: HAVING never references a GROUP BY key that is an expression (only column keys, aggregates)
+	NoInSubNullItem   bool // the select item of an IN subquery is never a bare NULL literal
+	NoCoalesceDecMix  bool // COALESCE never has two DECIMAL arguments of different precision/scale
+	NoOuterOnlyInSub  bool // a leaf predicate inside a subquery never references outer columns only
 }
 
 type tabRef struct {
@@ -160,6 +164,9 @@ type Gen struct {
 	// noSumInt: inside set-operation arms SUM over INT is not generated, because this engine types
 	// it DOUBLE and unifies INT with DOUBLE columns of a set operation to CHAR (reported separately)
 	noSumInt bool
+	// noNullLit: no NULL literals inside set-operation arms' select items (a NULL-typed arm column is
+	// unified to CHAR by this engine, same reported class)
+	noNullLit bool
 }
 
 // NewGen makes a query generator.
@@ -187,14 +194,14 @@ func (g *Gen) pickTable() *Table {
 func lit(v Val, t Type) *Expr { return &Expr{Op: "lit", T: t, V: v} }
 
 func (g *Gen) intLit() *Expr {
-	if g.pct(3) {
+	if g.pct(3) && !g.noNullLit {
 		return lit(Null, TInt)
 	}
 	return lit(IntVal(intPool[g.rnd.Intn(len(intPool))]), TInt)
 }
 
 func (g *Gen) decLit() *Expr {
-	if g.pct(3) {
+	if g.pct(3) && !g.noNullLit {
 		return lit(Null, TDec)
 	}
 	p := decPool
@@ -205,7 +212,7 @@ func (g *Gen) decLit() *Expr {
 }
 
 func (g *Gen) strLit() *Expr {
-	if g.pct(3) {
+	if g.pct(3) && !g.noNullLit {
 		return lit(Null, TStr)
 	}
 	return lit(StrVal(strPool[g.rnd.Intn(len(strPool))]), TStr)
@@ -274,6 +281,10 @@ func (g *Gen) num(c *gctx, t Type, depth int) *Expr {
 			at := t
 			if t == TDec && i > 0 && g.pct(30) {
 				at = TInt
+			}
+			if at == TDec && g.cfg.NoCoalesceDecMix {
+				args = append(args, g.col(c, TDec)) // every DECIMAL argument is a DECIMAL(8,2) column
+				continue
 			}
 			args = append(args, g.num(c, at, depth-1))
 		}
@@ -473,6 +484,9 @@ func (g *Gen) inSub(c *gctx) *Expr {
 		l = g.num(c, t, 1)
 	}
 	q := g.selectBlock(g.subCtx(c), blockOpts{want: []Type{t}, sub: true})
+	if g.cfg.NoInSubNullItem && q.Items[0].E.Op == "lit" && q.Items[0].E.V.IsNull() {
+		q.Items[0].E = g.col(&gctx{local: []tabRef{{q.From[0].Alias, g.db.Tables[q.From[0].Table]}}}, t)
+	}
 	return &Expr{Op: "insub", T: TBool, Not: g.pct(50), Args: []*Expr{l}, Q: q}
 }
 
@@ -809,8 +823,14 @@ func (g *Gen) havingPred(c *gctx, q *Query, depth int) *Expr {
 	}
 	// operand: an aggregate (from the select list when the F18 exclusion is on) or a key
 	var operand *Expr
-	if len(q.GroupBy) > 0 && g.pct(25) {
-		operand = q.GroupBy[g.rnd.Intn(len(q.GroupBy))]
+	var keyOps []*Expr
+	for _, k := range q.GroupBy {
+		if k.Op == "col" || !g.cfg.NoHavingExprKey {
+			keyOps = append(keyOps, k)
+		}
+	}
+	if len(keyOps) > 0 && g.pct(25) {
+		operand = keyOps[g.rnd.Intn(len(keyOps))]
 	} else {
 		var listed []*Expr
 		for _, it := range q.Items {
@@ -848,8 +868,8 @@ func (g *Gen) havingPred(c *gctx, q *Query, depth int) *Expr {
 func (g *Gen) Query() *Query {
 	var q *Query
 	if g.pct(18) {
-		g.noSumInt = true
-		defer func() { g.noSumInt = false }()
+		g.noSumInt, g.noNullLit = true, true
+		defer func() { g.noSumInt, g.noNullLit = false, false }()
 		lc := &gctx{depth: g.cfg.SubDepth}
 		l := g.selectBlock(lc, blockOpts{setArm: true, noAvg: true})
 		var want []Type
